@@ -630,7 +630,7 @@ func (pf *pfunc) numberAt(v ssa.Value, at ppos, subst map[ssa.Value]*vn) *vn {
 				return best.v
 			}
 		}
-		n := pf.intern(&vn{key: pf.uniq("call:" + calleeLabel(cm)), op: "call", typ: x.Type(), name: calleeLabel(cm), at: at})
+		n := pf.intern(&vn{key: pf.uniq("call:" + calleeLabel(cm)), op: "call", typ: x.Type(), name: calleeLabel(cm), at: at, val: x})
 		n.args = append(n.args, argv...)
 		if pureKey != "" {
 			pf.loads[pureKey] = append(pf.loads[pureKey], &loadEvent{addrKey: pureKey, at: at, v: n, class: "*"})
